@@ -6,7 +6,7 @@ from .. import history
 from ..battery import call, _Raised
 from ..observe import observe
 
-TIERS = {"quick": 400, "thorough": 8000}
+TIERS = {"quick": 1000, "thorough": 20000}
 WATCHDOG_S = {"quick": 900, "thorough": 7200}
 RULE = ("one case = one generated DirectedHypergraph (2-8 nodes from any label universe, 1-14 hyperedges of total size 2-6 "
         "with disjoint non-empty sides, reversed and partially reversed pairs forced) x every bound 2..8 (also below the "
